@@ -240,6 +240,25 @@ theorem reformat_meaning_strict (f : QFlags) (src : Bytes) (ha : f.allowInvalid 
         rw [← this]
       rw [JsonV.Lemmas.QuoteReformat.preserve_loop_meaning f.html f.js src _ _ hcs]
 
+/-- **`preserve_is_jstring`**: over a literal the strict scanner accepts, the PreserveRawStrings loop (any EscapeForHTML /
+EscapeForJS combination) outputs a string literal of the strict grammar again. -/
+theorem preserve_is_jstring (html js : Bool) (src : Bytes) (n : Nat) (nc : Bool)
+    (h : consumeString true src = (n, Err.ok, nc)) :
+    JsonV.Spec.Grammar.JString true (preserveLoop html js n src) :=
+  (JsonV.Lemmas.QuoteReformat.preserve_strict html js src n nc h).1
+
+/-- **`preserve_idem`**: … and that output is a fixed point of the loop with the same flags (whatever follows it). -/
+theorem preserve_idem (html js : Bool) (src : Bytes) (n : Nat) (nc : Bool)
+    (h : consumeString true src = (n, Err.ok, nc)) (junk : Bytes) :
+    preserveLoop html js (preserveLoop html js n src).length (preserveLoop html js n src ++ junk) = preserveLoop html js n src :=
+  (JsonV.Lemmas.QuoteReformat.preserve_strict html js src n nc h).2.1 junk
+
+/-- … and unquotes to the same text, without error. -/
+theorem preserve_unquote (html js : Bool) (src : Bytes) (n : Nat) (nc : Bool)
+    (h : consumeString true src = (n, Err.ok, nc)) :
+    appendUnquote (preserveLoop html js n src) = appendUnquote (src.take n) :=
+  (JsonV.Lemmas.QuoteReformat.preserve_strict html js src n nc h).2.2
+
 /-- Every literal of C01's strict grammar is a `StringLiteral` (has an RFC 8259 meaning) and AppendUnquote returns it:
 `unquote_meaning` applies to everything the strict scanner accepts. -/
 theorem strict_literal_meaning (lit : Bytes) (h : JsonV.Spec.Grammar.JString true lit) :
